@@ -175,7 +175,7 @@ def gen_seq_flags(rng, tier):
 
 
 def generate(rng, tier):
-    nu, na, ns, nf = (90, 3, 60, 2) if tier == "quick" else (500, 15, 300, 10)
+    nu, na, ns, nf = (90, 3, 60, 2) if tier == "quick" else (240, 8, 150, 5)
     out = [gen_unroll(rng, tier) for _ in range(nu)]
     for _ in range(na):
         out += gen_all_pairings(rng, tier)
@@ -254,10 +254,12 @@ def mutate_case(rng, case):
 
 
 CLAIMED = True
-LEVEL_TEXT = ("Theorems: structural clauses and one-step lemmas of the unroll construction (see docs/C09.md for which are full and which "
-              "_partial); the simulation clause for all n is decided per case by the Coq oracle: for every valuation of the free inputs of the "
-              "returned circuit the value at io_map[o][t] equals the step-t value of the sequential machine, for unroll and for "
-              "sequential_unroll under every flag combination.")
+LEVEL_TEXT = ("Theorems (all closed acyclic circuits whose free nodes are the inputs, all n, all state pairings with distinct generated names): "
+              "every consistent valuation of the closed form of unroll's result carries at io_map[o][t] the value of running c for t+1 steps "
+              "(induction on the step; run = iterated evalc, proved to be the unique run), its inputs are exactly the step-0 state inputs and the "
+              "per-step copies of the other inputs, io_map[io][t] = <io>_<prefix>_<t>. That the API-level model equals the closed form, "
+              "lint-cleanliness of the result, and the whole sequential_unroll clause (every flag combination) are decided per case by the Coq "
+              "oracle on what the implementation returned: step-by-step simulation for every valuation of the free inputs.")
 LEVEL_NOTE = ("Trusted: Coq kernel + vm_compute, std++, harness. Models of unroll/sequential_unroll are tied to the code by correspondence on "
               "the returned graph and io map. Guard: generated names (<io>_<prefix>_<t>, unrolled_<t>_*) do not collide with node names.")
 TECHNIQUE = "Coq model through the proved API model + vm_compute correspondence + exhaustive step-by-step simulation oracle"
